@@ -1850,16 +1850,6 @@ class RedunBackendDb(RedunBackend):
 
         with self.with_session() as session:
             if not session.query(CallNode).filter_by(call_hash=call_hash).first():
-                session.add(
-                    CallNode(
-                        call_hash=call_hash,
-                        task_name=task_name,
-                        task_hash=task_hash,
-                        args_hash=args_hash,
-                        value_hash=result_hash,
-                    )
-                )
-
                 # Record CallEdges only if child was recorded (might not be if prov=False).
                 recorded_child_hashes = {
                     call_hash
@@ -1869,22 +1859,34 @@ class RedunBackendDb(RedunBackend):
                         child_call_hashes,
                     )
                 }
+
+                # If child nodes were not recorded, then their tasks might not be recorded either.
+                # Do this first: recording values commits, and the CallNode must never be
+                # committed without its CallSubtreeTasks (shallow cache validity relies on them).
+                if recorded_child_hashes < set(child_call_hashes):
+                    for task in subtree_tasks:
+                        self.record_value(task)
+
+                session.add(
+                    CallNode(
+                        call_hash=call_hash,
+                        task_name=task_name,
+                        task_hash=task_hash,
+                        args_hash=args_hash,
+                        value_hash=result_hash,
+                    )
+                )
                 for i, child_call_hash in enumerate(child_call_hashes):
                     if child_call_hash in recorded_child_hashes:
                         session.add(
                             CallEdge(parent_id=call_hash, child_id=child_call_hash, call_order=i)
                         )
 
-                self._record_args(call_hash, expr_args, eval_args)
-
-                # If child nodes were not recorded, then their tasks might not be recorded either.
-                if recorded_child_hashes < set(child_call_hashes):
-                    for task in subtree_tasks:
-                        self.record_value(task)
-
-                # Record call subtree tasks.
+                # Record call subtree tasks together with the CallNode.
                 for task in subtree_tasks:
                     session.add(CallSubtreeTask(call_hash=call_hash, task_hash=task.hash))
+
+                self._record_args(call_hash, expr_args, eval_args)
                 session.commit()
         return call_hash
 
